@@ -4,14 +4,19 @@
 
 use crate::common::glob::glob_match;
 use crate::common::net::exchange;
+#[cfg(not(hvt))]
 use crate::common::net_app::start_app;
 use crate::engine::{hash_of, pt, Ctx, Fail};
+#[cfg(not(hvt))]
 use humphrey::http::{Response, StatusCode};
+#[cfg(not(hvt))]
 use humphrey::stream::Stream;
+#[cfg(not(hvt))]
 use humphrey::{App, SubApp};
 use proptest::prelude::*;
 use serde::{Deserialize, Serialize};
 use serde_json::{json, Value as J};
+#[cfg(not(hvt))]
 use std::io::Write;
 use std::time::Duration;
 
@@ -58,10 +63,11 @@ pub fn reference_route(c: &Case, r: &ReqCase) -> (Option<(usize, usize)>, usize)
     (pick(&c.default).map(|ri| (usize::MAX, ri)), candidates)
 }
 
-fn ident(hi: usize, ri: usize, ws: bool) -> String {
+pub fn ident(hi: usize, ri: usize, ws: bool) -> String {
     format!("{}:{}:{}", if ws { "ws" } else { "http" }, if hi == usize::MAX { "default".to_string() } else { format!("host{}", hi) }, ri)
 }
 
+#[cfg(not(hvt))]
 fn build_sub(spec: &SubSpec, hi: usize) -> SubApp<()> {
     let mut s: SubApp<()> = SubApp::new();
     for (ri, p) in spec.routes.iter().enumerate() {
@@ -78,6 +84,7 @@ fn build_sub(spec: &SubSpec, hi: usize) -> SubApp<()> {
     s
 }
 
+#[cfg(not(hvt))]
 pub fn check(c: &Case, shard: usize, ctx: Option<&Ctx>) -> Vec<Fail> {
     let mut app: App<()> = App::new_with_config(4, ()).with_default_subapp(build_sub(&c.default, usize::MAX));
     for (hi, h) in c.hosts.iter().enumerate() {
@@ -87,6 +94,13 @@ pub fn check(c: &Case, shard: usize, ctx: Option<&Ctx>) -> Vec<Fail> {
         Ok(r) => r,
         Err(e) => return vec![Fail::new("harness-app", e)],
     };
+    let fails = check_requests(c, running.addr, ctx);
+    let _ = running.stop(Duration::from_secs(10));
+    fails
+}
+
+/// sends the case's requests to a server already running at `addr` and compares with the reference router
+pub fn check_requests(c: &Case, addr: std::net::SocketAddr, ctx: Option<&Ctx>) -> Vec<Fail> {
     let mut fails = Vec::new();
     for r in &c.requests {
         let (want, candidates) = reference_route(c, r);
@@ -119,7 +133,7 @@ pub fn check(c: &Case, shard: usize, ctx: Option<&Ctx>) -> Vec<Fail> {
                 cx.sample(labels.last().unwrap(), || json!({"hosts": c.hosts, "default": c.default, "request": r, "expected": want.map(|(h, i)| ident(h, i, r.websocket))}));
             }
         }
-        let bytes = match exchange(running.addr, req.as_bytes(), Duration::from_secs(10)) {
+        let bytes = match exchange(addr, req.as_bytes(), Duration::from_secs(10)) {
             Ok(b) => b,
             Err(e) => {
                 fails.push(Fail::new("harness-exchange", e));
@@ -161,7 +175,6 @@ pub fn check(c: &Case, shard: usize, ctx: Option<&Ctx>) -> Vec<Fail> {
             }
         }
     }
-    let _ = running.stop(Duration::from_secs(10));
     fails
 }
 
@@ -204,7 +217,7 @@ fn arb_sub(host: impl Strategy<Value = String>) -> impl Strategy<Value = SubSpec
     (host, proptest::collection::vec(arb_pattern(), 0..7), proptest::collection::vec(arb_pattern(), 0..4)).prop_map(|(host, routes, ws_routes)| SubSpec { host, routes, ws_routes })
 }
 
-fn arb_case() -> impl Strategy<Value = Case> {
+pub fn arb_case() -> impl Strategy<Value = Case> {
     let req = (
         prop_oneof![1 => Just(None), 6 => (0usize..HOSTS.len()).prop_map(|i| Some(HOSTS[i].to_string()))],
         arb_path(),
@@ -215,6 +228,7 @@ fn arb_case() -> impl Strategy<Value = Case> {
     (proptest::collection::vec(arb_sub(arb_host_pattern()), 0..5), arb_sub(Just("*".to_string())), proptest::collection::vec(req, 30)).prop_map(|(hosts, default, requests)| Case { hosts, default, requests })
 }
 
+#[cfg(not(hvt))]
 pub fn run(ctx: &Ctx) {
     ctx.rule("applications with 0..4 host sub-apps (host patterns literal / *.x / x.* / infix / adjacent stars, never exactly `*`) with 0..6 HTTP routes and 0..3 WebSocket routes each plus a default app, patterns over a tiny segment alphabet so that they overlap and shadow; 30 requests per application over Host {absent, exact, wildcard-matching, with port, non-matching, matching several hosts} x paths x optional query x plain/WebSocket upgrade; every handler answers with its identity; oracle = reference router (reference glob matcher + first host, first route, else default, else 404 / closed). Non-trivial = more than one candidate host or route matches, or the host matches but falls through to the default app; distinct by (application, request)");
     ctx.assume("requests go over real loopback sockets to a real App (threaded runtime); WebSocket handlers write their identity on the raw stream");
@@ -239,6 +253,7 @@ pub fn run(ctx: &Ctx) {
     });
 }
 
+#[cfg(not(hvt))]
 pub fn replay(_ctx: &Ctx, _kind: &str, case: &J) -> Vec<Fail> {
     match serde_json::from_value::<Case>(case.clone()) {
         Ok(c) => check(&c, 15, None),
